@@ -118,4 +118,4 @@ def harnesses(tier):
     return hs
 
 ASSUMPTIONS = ['per-construct reference semantics are written in the harnesses (C); children are abstract', 'the whole-program statement is the induction over these steps (argued, not solved)']
-OUTSIDE = ['how levels nest when operators of DIFFERENT levels are mixed (argued from S3 + S3b: each level parses its operands at the next tighter level), right-associativity of assignment (Equation()), operator tokenisation', 'Ranged_For, Fun_Call, Lambda, Def/eval_function, classes/attributes, containers as values (C12)']
+OUTSIDE = ['how levels nest when operators of DIFFERENT levels are mixed (argued from S3 + S3b: each level parses its operands at the next tighter level), right-associativity of assignment (Equation()), operator tokenisation', 'Lambda / Def / Method / Class / Attr_Decl node bodies (they build std::function-backed proxy functions; the frame those functions run in IS decided: S4.eval_function), guard ordering (function_less_than), containers as values (C12)']
